@@ -27,7 +27,7 @@ import itertools
 
 import numpy as np
 
-from mc.core import Outcome
+from mc.core import Outcome, jsonable
 from mc.oracles import grpJ_exact as X
 
 PROPERTY = "C34"
@@ -268,7 +268,7 @@ def _run_uniq(case, out: Outcome):
         for n in range(nc, N + 1):
             letters, lab_id, table = _words(nc, n)
             masks = _gap_classes(np.sort(norms[letters], axis=1), tol)
-            nviol = 0
+            nviol = {"known": 0, "other": 0}
             for w in range(letters.shape[0]):
                 idx = letters[w]
                 pts = np.ascontiguousarray(T[:, idx])
@@ -290,18 +290,25 @@ def _run_uniq(case, out: Outcome):
                     and np.array_equal(u, pts[:, e_n2o])
                 )
                 if not ok:
-                    nviol += 1
-                    if nviol <= 3:
-                        out.violate(
-                            "uniquify_point_set: result differs from one-representative-per-cluster reference",
-                            points=pts, tol=tol, cluster_labels=(idx // 3), offsets_in_tol=[[0, DELTA, -DELTA][o] for o in idx % 3],
-                            axis=ax, got_unique=u, got_new_2_old=n2o, got_old_2_new=o2n,
-                            expected_new_2_old=e_n2o, expected_old_2_new=e_o2n,
-                        )
-                    cls = "uniq/VIOLATION"
+                    detail = dict(
+                        points=pts, tol=tol, cluster_labels=(idx // 3), offsets_in_tol=[[0, DELTA, -DELTA][o] for o in idx % 3],
+                        axis=ax, got_unique=u, got_new_2_old=n2o, got_old_2_new=o2n,
+                        expected_new_2_old=e_n2o, expected_old_2_new=e_o2n,
+                    )
+                    what = "uniquify_point_set: result differs from one-representative-per-cluster reference"
+                    # written-out reports are capped per kind, so that reports of the registered
+                    # finding can never crowd out a violation of another kind
+                    probe = {"what": what}
+                    probe.update({k_: jsonable(v_) for k_, v_ in detail.items()})
+                    kind = "known" if known_finding(case, probe) is not None else "other"
+                    nviol[kind] += 1
+                    if nviol[kind] <= 3:
+                        out.violate(what, **detail)
+                    else:
+                        name = "suppressed_violation_reports" + ("_known_kind" if kind == "known" else "")
+                        out.extra[name] = out.extra.get(name, 0) + 1
+                    cls = "uniq/VIOLATION" + (":anchor-split" if kind == "known" else "")
                 out.ev(cls, key)
-            if nviol > 3:
-                out.extra["suppressed_violation_reports"] = out.extra.get("suppressed_violation_reports", 0) + nviol - 3
     if not out.samples and nc >= 2:
         letters, lab_id, table = _words(nc, min(N, nc + 1))
         w = letters.shape[0] // 2
